@@ -549,8 +549,11 @@ func genRule(r *rng, u *universe, o ruleOpts) *grule {
 		if !o.simple && r.chance(12) {
 			g.srcPorts = []prange{{1000, 1000 + r.intn(2)*4000}}
 		}
-		if !o.simple && r.chance(12) {
-			g.notDstPorts = []prange{{u.ports[r.intn(len(u.ports))], 9000}}
+		if !o.simple && r.chance(22) {
+			g.notDstPorts = []prange{{u.ports[r.intn(len(u.ports))], []int{9000, 8080, 444}[r.intn(3)]}}
+			if g.notDstPorts[0].first > g.notDstPorts[0].last {
+				g.notDstPorts[0].last = g.notDstPorts[0].first
+			}
 		}
 	case k < 6:
 		g.proto = icmpProto
@@ -749,7 +752,34 @@ func genEndpoint(r *rng, u *universe, o *caseOpts) ([]*gtier, []*gprofile) {
 			}
 			cur.pols = append(cur.pols, p)
 		}
+		// a third of the tiers with >= 2 policies: the first enforced policy opens with a Pass (or Allow / Deny) rule
+		// on one protocol and the next enforced policy decides the same traffic differently, so that "pass ends the
+		// tier" / "first verdict wins" are exercised by the probe aimed at that protocol
+		if o.feat != "ood" && r.chance(35) {
+			var enf []*gpolicy
+			for _, g := range tr.groups {
+				for _, p := range g.pols {
+					if !p.staged {
+						enf = append(enf, p)
+					}
+				}
+			}
+			if len(enf) >= 2 {
+				pr := []int{6, 17}[r.intn(2)]
+				first := []string{"pass", "pass", "allow", "deny"}[r.intn(4)]
+				second := map[string]string{"pass": []string{"deny", "allow"}[r.intn(2)], "allow": "deny", "deny": "allow"}[first]
+				mk := func(a string) *grule { return &grule{action: a, proto: pr, notProto: -1, icmpType: -1} }
+				enf[0].in = append([]*grule{mk(first)}, enf[0].in...)
+				enf[0].out = append([]*grule{mk(first)}, enf[0].out...)
+				enf[1].in = append([]*grule{mk(second)}, enf[1].in...)
+				enf[1].out = append([]*grule{mk(second)}, enf[1].out...)
+			}
+		}
 		tiers = append(tiers, tr)
+	}
+	if len(tiers) > 0 && o.feat != "ood" && r.chance(50) {
+		// make sure something behind the tiers can still allow (a pass is only visible if a later stage differs)
+		tiers[len(tiers)-1].defaultAction = "Pass"
 	}
 	nPr := []int{0, 1, 1, 2, 3}[r.intn(5)]
 	if o.feat == "profile-pass" && nPr < 2 {
@@ -1303,6 +1333,22 @@ func buildCase(r *rng, o *caseOpts, u *universe, tiers []*gtier, profs []*gprofi
 	})
 
 	// ---- probe packets: one aimed at each rule (a sample when there are many), perturbations, randoms
+	var edgePorts []int
+	for _, g := range allRules {
+		for _, q := range append(append(append([]prange{}, g.dstPorts...), g.notDstPorts...), g.srcPorts...) {
+			for _, x := range []int{q.first - 1, q.first, q.last, q.last + 1} {
+				if x >= 0 && x <= 65535 {
+					edgePorts = append(edgePorts, x)
+				}
+			}
+		}
+	}
+	edgePort := func(def int) int {
+		if len(edgePorts) > 0 && r.chance(50) {
+			return edgePorts[r.intn(len(edgePorts))]
+		}
+		return def
+	}
 	rndPkt := func() packet {
 		p := packet{proto: u.protos[r.intn(len(u.protos))], src: u.addrs[r.intn(len(u.addrs))], dst: u.addrs[r.intn(len(u.addrs))],
 			sport: []int{1000, 5000, 40000}[r.intn(3)], dport: u.ports[r.intn(len(u.ports))], ityp: []int{8, 0, 128, 3}[r.intn(4)]}
@@ -1342,7 +1388,7 @@ func buildCase(r *rng, o *caseOpts, u *universe, tiers []*gtier, profs []*gprofi
 			pkts = append(pkts, p)
 		}
 	}
-	const maxPkts = 18
+	const maxPkts = 20
 	if forced != nil {
 		for _, p := range forced {
 			addP(p)
@@ -1369,14 +1415,33 @@ func buildCase(r *rng, o *caseOpts, u *universe, tiers []*gtier, profs []*gprofi
 				p = fix(p)
 				if g.matches(p, ver, w) {
 					addP(p)
+					// the far edges of the rule's port ranges (negated ranges first), everything else as aimed
+					for _, q := range append(append([]prange{}, g.notDstPorts...), g.dstPorts...) {
+						if q.first < q.last && len(pkts) < maxPkts-2 {
+							e := p
+							e.dport = []int{q.last, q.last + 1, q.first}[r.intn(3)]
+							if len(g.notDstPorts) > 0 {
+								e.dport = q.last
+							}
+							addP(e)
+							break
+						}
+					}
 					q := p
-					switch r.intn(4) {
+					k := r.intn(4)
+					if len(g.dstPorts)+len(g.notDstPorts)+len(g.srcPorts) > 0 && r.chance(50) {
+						k = 2
+					}
+					switch k {
 					case 0:
 						q.src = u.addrs[r.intn(len(u.addrs))]
 					case 1:
 						q.dst = u.addrs[r.intn(len(u.addrs))]
 					case 2:
-						q.dport = u.ports[r.intn(len(u.ports))]
+						q.dport = edgePort(u.ports[r.intn(len(u.ports))])
+						if r.chance(25) {
+							q.sport = edgePort(q.sport)
+						}
 					default:
 						q.proto = u.protos[r.intn(len(u.protos))]
 					}
